@@ -27,24 +27,42 @@ def sh(cmd, **kw):
 
 
 class PreserveGenerated:
-    """Checks regenerate lean/FunsorVerif/Gen/* and evidence/* from the tree they run against; when that tree
-    is a MUTANT the regenerated files must not survive.  Snapshot them before, restore them after."""
-    DIRS = [VERIF / "lean" / "FunsorVerif" / "Gen", VERIF / "evidence"]
+    """Checks regenerate lean/FunsorVerif/Gen/Cxx* and evidence/Cxx.json from the tree they run against; when
+    that tree is a MUTANT the regenerated files must not survive.  Snapshot the files of the properties being
+    run before, restore them after (per property, so that concurrent runs for other properties and checks on
+    /repo are not disturbed)."""
+    GEN = VERIF / "lean" / "FunsorVerif" / "Gen"
+    EVI = VERIF / "evidence"
+
+    def __init__(self, props=None):
+        self.props = list(props) if props else None
+
+    def _files(self):
+        out = []
+        for p in self.props:
+            out += [f for f in self.GEN.glob(f"{p}*") if f.is_file()]
+            out += [f for f in self.EVI.glob(f"{p}.json")]
+        return out
 
     def __enter__(self):
-        self.tmp = Path(f"/tmp/seedkeep_{os.getpid()}")
+        self.tmp = Path(f"/tmp/seedkeep_{os.getpid()}_{id(self)}")
         shutil.rmtree(self.tmp, ignore_errors=True)
-        for i, d in enumerate(self.DIRS):
-            if d.exists():
-                shutil.copytree(d, self.tmp / str(i))
+        self.tmp.mkdir(parents=True)
+        if self.props is None:
+            self.props = sorted({f.name[:3] for f in self.GEN.iterdir() if f.is_file()})
+        self.saved = {}
+        for i, f in enumerate(self._files()):
+            shutil.copy2(f, self.tmp / str(i))
+            self.saved[f] = self.tmp / str(i)
         return self
 
     def __exit__(self, *a):
-        for i, d in enumerate(self.DIRS):
-            src = self.tmp / str(i)
-            if src.exists():
-                shutil.rmtree(d, ignore_errors=True)
-                shutil.copytree(src, d)
+        for f in self._files():
+            if f not in self.saved:
+                f.unlink()          # created by the mutant run
+        for f, src in self.saved.items():
+            if not f.exists() or f.read_bytes() != src.read_bytes():
+                shutil.copy2(src, f)
         shutil.rmtree(self.tmp, ignore_errors=True)
 
 
@@ -103,7 +121,7 @@ def run(sid, props):
     meta = json.loads((d / "meta.json").read_text())
     props = props or [meta["property"]]
     results = meta.setdefault("checks", {})
-    with PreserveGenerated(), Worktree(sid) as wt:
+    with PreserveGenerated(props), Worktree(sid) as wt:
         r = sh(["git", "-C", wt, "apply", str(d / "patch.diff")])
         if r.returncode:
             print("patch does not apply:", r.stdout)
@@ -168,7 +186,7 @@ def matrix(sids, props, jobs=6):
         d = SEEDED / sid
         meta = json.loads((d / "meta.json").read_text())
         results = meta.setdefault("checks", {})
-        with PreserveGenerated(), Worktree(sid) as wt:
+        with PreserveGenerated(props), Worktree(sid) as wt:
             r = sh(["git", "-C", wt, "apply", str(d / "patch.diff")])
             if r.returncode:
                 print(sid, "patch does not apply:", r.stdout)
